@@ -126,7 +126,7 @@ PROPS['C07'] = {
 }
 
 PROPS['C10'] = {
-    'units': ['rename', 'lists', 'unify', 'functions', 'solver_ids', 'solutions_ids', 'compare', 'listops'],
+    'units': ['rename', 'lists', 'unify', 'functions', 'solver_ids', 'solutions_ids', 'compare', 'listops', 'append'],
     'functions': ['unifiable.rs::Unifiable::recreate_variables', 'unifiable.rs::recreate_vars_terms', 'unifiable.rs::recreate_vars_goals',
                   'goal.rs::Goal::recreate_variables', 'operator.rs::Operator::recreate_variables',
                   'built_in_predicates.rs::BuiltInPredicate::recreate_variables', 'built_in_predicates.rs::BuiltInPredicate::new',
@@ -138,7 +138,7 @@ PROPS['C10'] = {
                 '#ids_kept': 'c01_prog', '#ids_inv': 'c01_prog', '#pre_ids': 'c01_prog', '#rewind_is_sound': 'c01_prog', '#fresh_for_the_search': 'c01_prog',
                 '#nothing_kept_from_a_failed_clause': 'c01_prog', '#ids_released_only_after_failed_unification': 'c01_prog'},
     'not_covered': [
-        'PROVED since 8.30: the ids handed out by one use of a clause or query all lie above the value the id counter had when the use began and up to its value when it ended (#ids_fresh, through the whole renaming family; get_rule: `all_fresh`), the counter being modelled as ghost state that next_id moves up by one (T9; Kani harness c10_counter_contract checks next_id itself); unify introduces no id of its own (#no_new_ids). PROVED since 8.36 (unit solver_ids, overlay contracts contracts/*+ids.vc on the verbatim bodies of next_solution, next_solution_and, next_solution_or, next_solution_bip, make_solution_node, make_base_node, set_head_node, over the node heap with the counter as its ghost field `ids`): every variable id referenced from the search state - the goal, the remaining operands and the bindings of every solution node - is at most the counter, before and after every request (ids_ok; #ids_kept, #ids_inv), and so is every answer returned; so the ids get_rule hands out (above the counter as it was: #ids_interval, proved in unit rename) are in use nowhere else in the search, and the rewinding of the counter after a failed head unification gives back ids nothing refers to (#rewind_is_sound). RELATIVE TO, stated as assumptions: get_rule\'s own preconditions at the solver\'s call site (the predicate exists, the stored rules are well formed; unify\'s preconditions at its call sites are PROVED in unit solver_wf, 8.37), append, functor, include and exclude introduce no variable of their own (clause #no_new_ids of their stubs in solver_ids, not proved in their units; for the five comparisons and count it IS proved, units compare and listops), and the query was built in the current counter epoch (make_query, #ids_fresh). Answers already handed to the caller are outside the search state',
+        'PROVED since 8.30: the ids handed out by one use of a clause or query all lie above the value the id counter had when the use began and up to its value when it ended (#ids_fresh, through the whole renaming family; get_rule: `all_fresh`), the counter being modelled as ghost state that next_id moves up by one (T9; Kani harness c10_counter_contract checks next_id itself); unify introduces no id of its own (#no_new_ids). PROVED since 8.36 (unit solver_ids, overlay contracts contracts/*+ids.vc on the verbatim bodies of next_solution, next_solution_and, next_solution_or, next_solution_bip, make_solution_node, make_base_node, set_head_node, over the node heap with the counter as its ghost field `ids`): every variable id referenced from the search state - the goal, the remaining operands and the bindings of every solution node - is at most the counter, before and after every request (ids_ok; #ids_kept, #ids_inv), and so is every answer returned; so the ids get_rule hands out (above the counter as it was: #ids_interval, proved in unit rename) are in use nowhere else in the search, and the rewinding of the counter after a failed head unification gives back ids nothing refers to (#rewind_is_sound). RELATIVE TO, stated as assumptions: get_rule\'s own preconditions at the solver\'s call site (the predicate exists, the stored rules are well formed; unify\'s preconditions at its call sites are PROVED in unit solver_wf, 8.37), the built-in predicates\' preconditions on the SHAPE of their arguments (they panic otherwise; that they introduce no variable of their own - #no_new_ids - is PROVED for all ten in their units compare, listops, append, which name the overlay), and the query was built in the current counter epoch (make_query, #ids_fresh). Answers already handed to the caller are outside the search state',
         "'different names get different ids' and 'no fresh variable is in use elsewhere': ids come from next_id(); its counter contract (successive, non-zero, increasing) is proved by Kani, the composition with the map invariant is not machine-checked",
         'get_rule: which vector the HashMap returns for a &str key is vstd\'s uninterpreted maps_borrowed_key_to_value (no String/str key axiom in vstd); the contract says the result is the renamed index-th rule of that vector',
         'make_query: the static-mut reset in start_query is covered by C22 (Kani); parse_query\'s call establishes the wf_seq precondition (unit parsers: every parser returns well-formed terms)',
